@@ -16,6 +16,7 @@ Description grammar (lists only, so json round-trips exactly):
   ["bad", kind]                  malformed custom node (error parity)
   ["ci", [c..]] ["dc", x, y, tag] ["partial", fname, [c..], [[kw, c]..]]
 Keys:  ["i",n] ["s",str] ["f",x] ["b",bool] ["by",str] ["n"] ["t",[key..]] ["fs",[int..]] ["KO",n] ["K",n]
+       ["NZ",n] ["NB",n] (user key classes Alpha.Zed / Beta: qualname order differs from name order) ["FK",n] (ticking key)
 History ops:  ["reinsert", i]  (pop the i-th key (mod len) and insert it again at the end)
               ["mte", i, last] (OrderedDict.move_to_end)   ["popitem"] (popitem + reinsert)
               ["auto", key]    (defaultdict auto-insertion through d[key]; factory must not be None)
@@ -57,6 +58,10 @@ def build_key(kd):
         return U.K(kd[1])
     if t == 'FK':
         return U.FK(kd[1])
+    if t == 'NZ':
+        return U.Alpha.Zed(kd[1])
+    if t == 'NB':
+        return U.Beta(kd[1])
     raise ValueError(kd)
 
 
@@ -231,6 +236,8 @@ def key_descs(total_only=False):
         st.just(['n']),
         st.lists(sortable_atom_keys().filter(lambda k: k[0] == 'i'), max_size=2).map(lambda ks: ['t', ks]),
         st.integers(0, 4).map(lambda n: ['KO', n]),
+        st.integers(0, 2).map(lambda n: ['NZ', n]),      # nested class: qualname 'Alpha.Zed'
+        st.integers(0, 2).map(lambda n: ['NB', n]),      # module-level class 'Beta'
     ]
     if not total_only:
         base += [
@@ -423,7 +430,22 @@ PREDICATES = {
     'is_nt2': lambda x: type(x) is U.NT2,
     'deque_or_od': lambda x: type(x) in (deque, OrderedDict),
     'none_obj': lambda x: x is None,
+    'int_leaf': lambda x: type(x) is int,
+    'holds_one_int': lambda x: _holds_one_int(x),
 }
+
+
+def _holds_one_int(x):
+    """a container whose only child is an int (the innermost container of a deep chain)"""
+    try:
+        if isinstance(x, (list, tuple, deque)):
+            return len(x) == 1 and type(x[0]) is int
+        if isinstance(x, dict):
+            return len(x) == 1 and type(next(iter(x.values()))) is int
+        ch = getattr(x, 'ch', None)
+        return isinstance(ch, list) and len(ch) == 1 and type(ch[0]) is int
+    except Exception:  # noqa: BLE001
+        return False
 # predicates whose value depends only on the (type, arity, key set) of a node => "structure determined"
 STRUCTURAL_PREDICATES = ['none', 'never', 'tuple2', 'dict_has_a', 'is_cg', 'is_nt2', 'deque_or_od']
 
